@@ -259,20 +259,25 @@ NOT_BUILT = "check not built yet in this working session (planned; DESIGN.md sec
 
 # additions to the level text made after the CHECKS table was written (seeded round 4): histories / secondary entry points
 EXTRA = {
-    "C01": " The exported right-hand side is called repeatedly on the same function object at several states.",
-    "C02": " Script unit systems are drawn, and engine objects are re-used after a run on another network.",
+    "C01": " The exported right-hand side is called repeatedly on the same function object at several states. Uniform-amount states on heterogeneous volumes.",
+    "C02": " Script unit systems are drawn, and engine objects are re-used after a run on another network. Coarse Euler steps that overshoot below zero (facet coarse_steps).",
     "C03": " apply_reaction is called again after an in-place edit of one flag; whole-cell reservoirs as diffusion sources.",
-    "C04": " make_dxdtf on one-cell systems is asked in two drawn unit systems on both renderings.",
-    "C06": " Unit-system objects re-assigned through their setters after having served in a conversion are covered by facet 'reassigned'.",
-    "C07": " Facet birth_death covers zero-order production into empty cells (both engines, both space types).",
+    "C04": " make_dxdtf on one-cell systems is asked in two drawn unit systems on both renderings. System files with the units declared by the parent; extreme unit systems (facet output_units_extreme).",
+    "C06": " Unit-system objects re-assigned through their setters after having served in a conversion are covered by facet 'reassigned'. Unit strings with a base spread over several factors.",
+    "C07": " Facet birth_death covers zero-order production into empty cells (both engines, both space types). Waiting times conditional on the event class (independence of waiting time and event choice).",
     "C09": " One script in three is edited into its final form through the RDScript setters after having been read.",
     "C11": " The result buffers allocated by the Python glue are ASan-tracked (PYTHONMALLOC=malloc); histories include output ; sample ; output.",
     "C13": " Volumes edited through the space's setters before regeneration.",
     "C15": " The tau-leap and Gillespie algorithms are walked over the neighbour table too; the relation is re-checked on the same grid object after set_boundary_conditions.",
     "C16": " simulate(cgmap=...) is run with every engine and initial-state processing mode (first sample obeys the mode; identity map = plain run).",
-    "C17": " A second lookup (same number, other unit) and a repeat of the first are made on the same trajectory object.",
-    "C18": " Texts are parsed again after the caller modified earlier results.",
+    "C17": " A second lookup (same number, other unit) and a repeat of the first are made on the same trajectory object. Queries a hair's breadth next to a sample time.",
+    "C18": " Texts are parsed again after the caller modified earlier results. All ASCII blanks, also directly after an exponent.",
     "C20": " Two non-reference aliases of a field together.",
+    "C08": " Coarse-grained runs repeated with the same seed (facet coarse_grained).",
+    "C10": " Completed runs are continued (iterate_n(0), iterate_n(2), iterate) and must stay completed with unchanged output; simulate_script with and without the progress display.",
+    "C12": " Trajectories whose system differs from their script's.",
+    "C14": " Scripts from constructor and dictionary with the default mode left out; pooled Poisson mean above the 100-molecule switch (facet poisson_large).",
+    "C19": " UnitValue objects inside per-environment dictionaries; very small / large constants; constants re-assigned after K was read.",
 }
 
 
